@@ -726,6 +726,32 @@ def r10_loader_complete(ctx, rule):
                 bad = True
                 ctx.bad(rule, q, 'loader consumes a line outside its error recovery: ' + U(c)[:60],
                         'every line of a terminal file is a value of the grammar', None, c)
+    # the skip flag: False before the first line, set in the handler only, cleared when it has been honoured
+    flag_sets = [(s_, v) for s_, v in stores_in(fn).get('error_flag', []) if v is not None]
+    if flag_sets:
+        first = min(flag_sets, key=lambda t: t[0].lineno)
+        if const(first[1]) is not False:
+            bad = True
+            ctx.bad(rule, q, 'error_flag starts as %s' % U(first[1]), 'the first line of a terminal file is its most probable value: nothing is '
+                    'skipped before a malformed line has been seen', None, first[0], firm=True)
+        for s_, v in flag_sets:
+            in_h = any(isinstance(a, ast.ExceptHandler) for a in enclosing_stmt_chain(mod, s_))
+            conds_ = [(U(t), p_) for t, p_ in path_conditions(mod, s_, stop=lp)] if any(x is s_ for b_ in lp.body for x in ast.walk(b_)) else None
+            if const(v) is True and not in_h and s_ is not first[0]:
+                bad = True
+                ctx.bad(rule, q, 'error_flag set outside the error recovery: ' + U(s_)[:50], 'only a malformed line makes the loader skip its '
+                        'successor', None, s_, firm=True)
+            if const(v) is False and conds_ == [('error_flag', True)]:
+                pass
+        skips = [st_ for st_ in lp.body if isinstance(st_, ast.If) and 'error_flag' in U(st_.test)]
+        for st_ in skips:
+            if U(st_.test) != 'error_flag':
+                bad = True
+                ctx.bad(rule, q, 'a line is skipped when ' + U(st_.test), 'a line is skipped only after a malformed one', None, st_, firm=True)
+            elif not any(isinstance(x, ast.Assign) and U(x.targets[0]) == 'error_flag' and const(x.value) is False for x in st_.body):
+                bad = True
+                ctx.bad(rule, q, 'the skip flag is not cleared when it is honoured', 'one malformed line costs one following line, not the rest '
+                        'of the file', None, st_, firm=True)
     if ctx.floor(rule, q, n, 3, 'skip statements in the terminal loader') and not bad:
         ctx.ok(rule, q, 'the only skipped lines are the error-recovery cases (undecodable line, unparsable record, line after one)')
 
@@ -836,6 +862,11 @@ def r22_keyspace_types(ctx, rule):
             if isinstance(x, ast.Name):
                 ok = False
                 ctx.unk(rule, q, 'the %s is bound in a way this rule does not follow (%s)' % (what, U(x)))
+                continue
+            if isinstance(x, ast.Call) and call_name(x) == 'int' and len(x.args) == 1 and isinstance(x.args[0], ast.Subscript) \
+                    and isinstance(const(x.args[0].slice), int) and const(x.args[0].slice) != (0 if what == 'level' else 1):
+                ok = False
+                ctx.bad(rule, q, 'the %s is taken from field %s' % (what, const(x.args[0].slice)), 'omen_keyspace.txt is level<TAB>keyspace', None, st, firm=True)
                 continue
             if not (isinstance(x, ast.Call) and call_name(x) == 'int' and len(x.args) == 1):
                 ok = False
